@@ -421,7 +421,7 @@ impl Check for C09 {
     fn run_shard(&self, ctx: &Ctx, rec: &mut Rec) {
         let (h, k) = match ctx.tier {
             Tier::Quick => (2400, 800),
-            Tier::Thorough => (20000, 6000),
+            Tier::Thorough => (60000, 18000),
         };
         prop_loop(ctx, rec, "history", strategy(false), ctx.share(h), judge);
         prop_loop(ctx, rec, "kill", strategy(true), ctx.share(k), judge);
